@@ -2,7 +2,7 @@ import logging
 
 import actions
 import schema
-from objtypes import strict_equal
+from objtypes import strict_equal, equal_encoding
 
 log = logging.getLogger(__name__)
 
@@ -247,9 +247,17 @@ class DocActions(object):
       raise
 
     # Fill in the new column with the values from the old column.
+    # A value whose encoding is the same in both types (e.g. 3.0 and 3 between Numeric and Int) is
+    # not mentioned by any accompanying record action, so give it the new type's representation
+    # here; otherwise formulas would see it as a value of the wrong type (alttext).
     new_column = table.get_column(col_id)
     for row_id in table.row_ids:
-      new_column.set(row_id, old_column.raw_get(row_id))
+      value = old_column.raw_get(row_id)
+      if not new_column.is_formula() and not new_column.type_obj.is_right_type(value):
+        converted = new_column.convert(value)
+        if new_column.type_obj.is_right_type(converted) and equal_encoding(converted, value):
+          value = converted
+      new_column.set(row_id, value)
 
     # Generate the undo action.
     self._engine.out_actions.undo.append(actions.ModifyColumn(table_id, col_id, undo_col_info))
